@@ -19,7 +19,20 @@ pub struct RecHandler {
 }
 
 fn ex(code: u8) -> ExceptionCode {
-    ExceptionCode::from(code)
+    // the named variants by their numbers in the Modbus application protocol (written out here: the
+    // library's own number table is part of what is checked)
+    match code {
+        0x01 => ExceptionCode::IllegalFunction,
+        0x02 => ExceptionCode::IllegalDataAddress,
+        0x03 => ExceptionCode::IllegalDataValue,
+        0x04 => ExceptionCode::ServerDeviceFailure,
+        0x05 => ExceptionCode::Acknowledge,
+        0x06 => ExceptionCode::ServerDeviceBusy,
+        0x08 => ExceptionCode::MemoryParityError,
+        0x0A => ExceptionCode::GatewayPathUnavailable,
+        0x0B => ExceptionCode::GatewayTargetDeviceFailedToRespond,
+        x => ExceptionCode::Unknown(x),
+    }
 }
 
 impl RequestHandler for RecHandler {
